@@ -1,9 +1,14 @@
 #!/bin/sh
-# usage: try_mutant.sh <patch.diff> <Cxx> [<Cyy> ...]  -- apply a seeded change to /repo, run the checks, undo it
+# usage: try_mutant.sh <patch.diff> <Cxx> [<Cyy> ...]
+# runs the checks against a scratch worktree of /repo with the seeded change applied (VERIF_REPO), so that
+# /repo itself is never touched and several changes can be evaluated at the same time
 p=$1; shift
-git -C /repo apply --check "$p" 2>/dev/null || git -C /repo apply --check -3 "$p" 2>/dev/null || { echo "PATCH DOES NOT APPLY: $p"; exit 3; }
-git -C /repo apply "$p" || exit 3
+wt=/tmp/wt/mut-$$
+git -C /repo worktree add --detach $wt HEAD >/dev/null 2>&1
+cp /repo/src/config.h $wt/src/config.h
+if ! git -C $wt apply "$p" 2>/dev/null; then echo "PATCH DOES NOT APPLY: $p"; git -C /repo worktree remove --force $wt; exit 3; fi
 for c in "$@"; do
-  ( cd /verif && timeout 1500 ./check $c 2>&1 | grep -E "^(VIOLATION|OK|ERROR)" | head -3 | cut -c1-300 )
+  ( cd /verif && VERIF_REPO=$wt VERIF_EVIDENCE_DIR=/tmp/wt/mut-ev-$$ timeout 2400 ./check $c 2>&1 | grep -E "^(VIOLATION|OK|ERROR)" | head -2 | cut -c1-200 | sed "s/^/$c: /" )
 done
-git -C /repo checkout -- . 
+git -C /repo worktree remove --force $wt
+rm -rf /tmp/wt/mut-ev-$$
